@@ -49,3 +49,11 @@ Fixpoint failing_ids {A} (f : A -> bool) (l : list (N * A)) : list N :=
   | [] => []
   | (i, c) :: r => if f c then failing_ids f r else i :: failing_ids f r
   end.
+
+(* pointwise test of two lists of possibly different types; false when the lengths differ *)
+Fixpoint forall2b {A B} (f : A -> B -> bool) (a : list A) (b : list B) : bool :=
+  match a, b with
+  | [], [] => true
+  | x :: a', y :: b' => f x y && forall2b f a' b'
+  | _, _ => false
+  end.
